@@ -2,7 +2,7 @@
    // comments).  Model: Model/Layout.v (the repaired tokenizer, Token.end / is_connected,
    CustomOrder).  Only statements, closed by `exact`, each followed by Print Assumptions. *)
 From Coq Require Import ZArith String List Bool Ascii.
-From JMCV Require Import Model.Layout Proofs.LayoutBasic Proofs.LayoutAdj Proofs.LayoutAdj2.
+From JMCV Require Import Model.Layout Proofs.LayoutBasic Proofs.LayoutAdj Proofs.LayoutAdj2 Proofs.LayoutSim Proofs.LayoutSim2.
 Import ListNotations.
 Open Scope Z_scope.
 
@@ -22,6 +22,30 @@ Theorem C15_adjacency_is_lexical :
     Forall adjacent_as_glued sts.
 Proof. exact parse_adjacent. Qed.
 Print Assumptions C15_adjacency_is_lexical.
+
+(* C15_flat — THE relayout theorem for one run of the tokenizer (any mode, any start position, with
+   brackets): if s' is s with every layout run outside string literals replaced by an arbitrary layout
+   run (`relayout`, Model/Layout.v: runs of space/tab/newline with optional `// ...` comments before a
+   newline), and s is accepted without leaving the scope (s_ev), then s' is accepted from ANY other start
+   position, and the two token streams agree statement by statement and token by token in type, text,
+   _macro_length and ideal adjacency (`tok_sim`; the text of a bracket token is again related by
+   `relayout`, so the statement applies to its content when that is re-tokenised), and every
+   `is_connected` decision between consecutive tokens is the same. *)
+Theorem C15_flat :
+  forall cf es allow_last allow_sc line col line' col' s s' f sts,
+    relayout MCode s s' ->
+    parse_st [] cf es allow_sc line col s = Ok f -> s_ev f = false -> finish [] es allow_last f = Ok sts ->
+    exists f' sts',
+      parse_st [] cf es allow_sc line' col' s' = Ok f' /\ s_ev f' = false /\ finish [] es allow_last f' = Ok sts' /\
+      Forall2 (Forall2 tok_sim) sts sts' /\
+      map (conn_flags_with is_connected) sts = map (conn_flags_with is_connected) sts'.
+Proof. exact relayout_flat. Qed.
+Print Assumptions C15_flat.
+
+(* relayout is symmetric, so C15_flat also gives: s' accepted (in scope) -> s accepted. *)
+Theorem C15_relayout_sym : forall m s s', relayout m s s' -> relayout m s' s.
+Proof. exact relayout_sym. Qed.
+Print Assumptions C15_relayout_sym.
 
 (* The pinned is_connected (start line and col + len) is refuted by a bracket that spans lines:
    the same tokens, glued in the source, are connected on one line and not connected when the
@@ -54,10 +78,39 @@ Theorem C15_order_repaired_is_conservative :
 Proof. exact custom_lt_pinned_later. Qed.
 Print Assumptions C15_order_repaired_is_conservative.
 
-(* Non-vacuity: a bracket spanning two lines followed by a glued keyword. *)
+(* Non-vacuity: a bracket spanning two lines followed by a glued keyword: accepted, in scope,
+   glued flags and is_connected flags are [false; true; true]. *)
 Example C15_nonvacuous :
-  exists st toks,
-    parse_st [] false true false 1 1 (s2l "a[{
-b}].c;") = Ok st /\ s_ev st = false /\ finish [] true false st = Ok [toks] /\
-    map t_glued toks = [false; true; true] /\ conn_flags_with is_connected toks = [false; true; true].
-Proof. eexists. eexists. vm_compute. repeat split. Qed.
+  match parse_st [] false true false 1 1 (s2l "a[{
+b}].c;") with
+  | Ok st =>
+      match finish [] true false st with
+      | Ok [toks] =>
+          negb (s_ev st) &&
+          (if list_eq_dec bool_dec (map t_glued toks) [false; true; true] then true else false) &&
+          (if list_eq_dec bool_dec (conn_flags_with is_connected toks) [false; true; true] then true else false)
+      | _ => false
+      end
+  | Err _ => false
+  end = true.
+Proof. vm_compute. reflexivity. Qed.
+
+(* Non-vacuity of C15_flat: a concrete relayout pair with a comment and a multi-line bracket. *)
+Example C15_flat_nonvacuous :
+  relayout MCode (s2l "a b;") (s2l "a // c
+ b;") /\
+  match parse_st [] false true false 1 1 (s2l "a b;") with
+  | Ok f => negb (s_ev f) && match finish [] true false f with Ok _ => true | Err _ => false end
+  | Err _ => false
+  end = true.
+Proof.
+  split.
+  - cbn. apply rl_code; [reflexivity|discriminate|].
+    apply (rl_lay [SP] (SP :: SLASH :: SLASH :: [SP; ch "c"] ++ [NL] ++ [SP])).
+    + apply lr_one, li_ws. reflexivity.
+    + apply (lr_cons (SP :: SLASH :: SLASH :: [SP; ch "c"] ++ [NL]) [SP]).
+      * apply li_cmt; [reflexivity|repeat constructor; discriminate].
+      * apply lr_one, li_ws. reflexivity.
+    + repeat (apply rl_code; [reflexivity|discriminate|]). apply rl_nil.
+  - vm_compute. reflexivity.
+Qed.
